@@ -85,6 +85,14 @@ def mixed_stream(rnd, payloads, n_items=12, well_formed=True, dmg=0.0, crlf_only
                 items.append(("damaged", damage(rnd, fr, where=rnd.choice([None, None, "crc", "payload"])), pl, True))
             else:
                 items.append(("frame", fr, pl, False))
+                if not well_formed and rnd.random() < 0.3 and len(pl) >= 10:
+                    # a different valid frame of the same length with the SAME CRC-24Q (and the same
+                    # first bytes) right behind it
+                    from .gen_crc import twin
+
+                    tw = twin(pl, rnd)
+                    if tw is not None:
+                        items.append(("frame", frame_of(tw), tw, False))
         elif r < 0.65:
             mid = rnd.choice([0, 5, 999, 1069, 2000 + rnd.randrange(1000), 4095])
             pl = bytes([mid >> 4, (mid & 0xF) << 4 | rnd.randrange(16)]) + bytes(rnd.randrange(256) for _ in range(rnd.choice([0, 1, 7, 60])))
